@@ -322,3 +322,12 @@ fn parse_piece(s: &[u8]) -> (Option<Result<(Color, Piece), u8>>, &[u8]) {
         _ => (None, s),
     }
 }
+
+/// verification hook: the private one-token decoder of the placement field; returns what it
+/// decoded and how many bytes it consumed
+#[cfg(rustyyato_chess_verif)]
+#[allow(clippy::type_complexity)]
+pub fn verif_parse_piece(s: &[u8]) -> (Option<Result<(Color, Piece), u8>>, usize) {
+    let (out, rest) = parse_piece(s);
+    (out, s.len() - rest.len())
+}
